@@ -181,6 +181,22 @@ def processGroup (conf : Pol → Pol → Bool) : List Pol → List Nat → List 
     if inv.contains i.id then processGroup conf rest inv
     else processGroup conf rest (markFrom conf i rest inv)
 
+/-- DECLARATIVE specification of the losers of one group (greedy by age): walk the group in priority order
+keeping the list `acc` of survivors; a policy is dropped (Conflicted) iff some OLDER SURVIVING policy conflicts with
+it, otherwise it survives. -/
+def dropped (conf : Pol → Pol → Bool) : List Pol → List Pol → List Pol
+  | _, [] => []
+  | acc, p :: rest =>
+    if acc.any (fun q => conf q p) then p :: dropped conf acc rest
+    else dropped conf (acc ++ [p]) rest
+
+/-- the survivors of the same walk -/
+def survivors (conf : Pol → Pol → Bool) : List Pol → List Pol → List Pol
+  | acc, [] => acc
+  | acc, p :: rest =>
+    if acc.any (fun q => conf q p) then survivors conf acc rest
+    else survivors conf (acc ++ [p]) rest
+
 /-- `possibles[key]` after `sort.Slice`: the valid policies of that GVK naming that target -/
 def groupOf (pols : List Pol) (key : Nat × Nat) : List Pol :=
   sortBy (·.md) (pols.filter (fun p => p.valid && p.gvk == key.1 && p.targets.contains key.2))
